@@ -638,6 +638,16 @@ func c01Rewrite(c *ev.Ctx) {
 			}
 		}
 	}
+	// one rewrite case in six: the dataset is reshaped between the two writes — its two extents
+	// trade places, so the element count (and often the chunk count) stays what it was
+	reshape := combo%6 == 4
+	if reshape {
+		a, b := r.Range(2, 9), r.Range(2, 9)
+		for b == a {
+			b = r.Range(2, 9)
+		}
+		n, dims, chunked, second, szName = a*b, []uint64{uint64(a), uint64(b)}, true, false, "reshaped"
+	}
 	v1 := hx.GenNumeric(r, "[]"+k, n, s1)
 	v2 := hx.GenNumeric(r, "[]"+k, n, s2)
 	op := hx.Op{K: "create_ds", Path: "/rw", DT: k, Dims: dims, Data: &v1, Expect: "ok"}
@@ -649,7 +659,15 @@ func c01Rewrite(c *ev.Ctx) {
 			op.Chunk = hx.GenChunk(r, dims, 0)
 		}
 	}
+	if reshape {
+		cdim := uint64(r.Range(1, 3))
+		op.Chunk = []uint64{min(cdim, dims[0]), min(cdim, dims[1])}
+		op.MaxDims = []uint64{hx.Unlimited, hx.Unlimited}
+	}
 	s := &hx.Script{SB: sbv, Ops: []hx.Op{op}}
+	if reshape {
+		s.Ops = append(s.Ops, hx.Op{K: "resize", Path: "/rw", Dims: []uint64{dims[1], dims[0]}})
+	}
 	if second {
 		s.Ops = append(s.Ops, hx.Op{K: "close"}, hx.Op{K: "reopen"}, hx.Op{K: "opends", Path: "/rw"})
 	}
